@@ -130,6 +130,63 @@ def case_boot(T, cfg):
              if len(rows) > 1 else want[0][0], key=key + ':cov')
 
 
+def case_bootcv(T, cfg):
+    """bootstrap_crossval with k_pattern = k_rdm = 1 (train = test = the resample): stored evaluations, noise
+    ceilings, dof and covariance; the RDM draws of the first resample and its internal shuffles are exhaustive"""
+    from rsatoolbox import inference as I
+    D, Mv, data, models, n, nd = _setup(T, cfg)
+    N = cfg['N']
+    n_rdm = cfg['n_rdm']
+    boot_type = cfg['boot_type']
+    if cfg.get('limit') is not None:
+        T.limit_draws(cfg['limit'], cfg['fixed'])
+    res = I.bootstrap_crossval(models, data, method='cosine', k_pattern=1, k_rdm=1, N=N, n_cv=1, boot_type=boot_type,
+                               use_correction=False)
+    draws = T.draws()
+    key = f'C04:bootcv:{boot_type}'
+    ev = res.evaluations
+    T.concrete('evaluation array shape', tuple(ev.shape) == (N, cfg['n_model'], 1, 1), str(ev.shape), key=key)
+    # the resamples are recovered from the observed draws: the first n_rdm (rdm) / n (pattern) draws of each resample
+    # select the groups; the remaining choice points of the resample are the internal k-fold shuffles
+    pos = 0
+    ok = []
+    for i in range(N):
+        if boot_type == 'rdm':
+            dr = draws[pos:pos + n_rdm]
+            rows = list(dr)
+            conds = list(range(n))
+            pos += n_rdm
+            uniq_r = len(set(dr))
+            pos += uniq_r                                      # permutation of the unique rdm groups: one choice per element
+            pos += n                                           # permutation of the conditions
+        else:
+            dp = draws[pos:pos + n]
+            rows = list(range(n_rdm))
+            conds = list(dp)
+            pos += n
+            if len(set(dp)) >= 3:           # only evaluable resamples run the internal (shuffled) k-fold
+                pos += n_rdm
+                pos += len(set(dp))
+        dv, mv = sample_vectors(D, Mv, n, rows, conds)
+        if boot_type == 'pattern' and len(set(conds)) < 3:
+            T.concrete(f'sample {i}: too few conditions -> NaN', bool(isnan(ev[i, 0, 0, 0])), str(ev[i, 0, 0, 0]), key=key)
+            continue
+        ok.append(i)
+        for j in range(cfg['n_model']):
+            T.eq(f'sample {i} model {j}', ev[i, j, 0, 0], ref_eval(mv[j], dv), key=key)
+        lo, hi = ref_ceiling(dv, rows if boot_type == 'rdm' else list(range(n_rdm)))
+        T.eq(f'sample {i}: noise ceiling of the same resample', [res.noise_ceiling[0][i][0], res.noise_ceiling[1][i][0]],
+             [lo, hi], key=key)
+    T.concrete('all draws accounted for', pos == len(draws), f'{pos} vs {len(draws)}', key=key)
+    T.concrete('dof', res.dof == ((n_rdm if boot_type == 'rdm' else n) - 1), str(res.dof), key=key + ':dof')
+    T.concrete('cv_method', res.cv_method == 'bootstrap_crossval_' + boot_type, res.cv_method, key=key)
+    if len(ok) >= 2:
+        rows_ = [[ev[i, j, 0, 0] for i in ok] for j in range(cfg['n_model'])] + \
+                [[res.noise_ceiling[c][i][0] for i in ok] for c in range(2)]
+        T.eq('covariance across resamples', res.variances, np.array(_cov_rows(rows_), dtype=object if T.symbolic else float),
+             key=key + ':cov')
+
+
 def case_crossval(T, cfg):
     """crossval: fitter sees the training fold only, score = similarity of the prediction at the fitted parameters
     restricted to the test conditions with the test rdms; folds with <=2 conditions are NaN (shared with C05)"""
@@ -137,7 +194,7 @@ def case_crossval(T, cfg):
     return case_leak(T, cfg)
 
 
-CASES = dict(boot=case_boot, crossval=case_crossval)
+CASES = dict(boot=case_boot, crossval=case_crossval, bootcv=case_bootcv)
 MAX_PATHS = dict(quick=1200, thorough=70000)
 ASSUME_SQRT_ARGS_POSITIVE = True
 SKIP_UNKNOWN_BRANCHES = True
@@ -159,7 +216,10 @@ def configs(tier):
                     container='array', positive=True, k=3))
     out.append(dict(case='crossval', gen='k_fold', n_rdm=3, n_cond=6, rgroups=[0, 1, 2], pgroups=None, gkind='int',
                     container='array', positive=True, k=2, k_rdm=2))
+    out.append(dict(case='bootcv', boot_type='rdm', n_rdm=2, n_cond=3, n_model=1, N=2, limit=7, fixed=[0, 1, 0, 0, 0, 0, 0]))
     if not quick:
+        out.append(dict(case='bootcv', boot_type='pattern', n_rdm=2, n_cond=3, n_model=1, N=2, limit=8,
+                        fixed=[0, 1, 2, 0, 0, 0, 0, 0]))
         out.append(dict(case='boot', routine='rdm', n_rdm=3, n_cond=3, n_model=1, N=2))
         out.append(dict(case='boot', routine='pattern', n_rdm=2, n_cond=4, n_model=1, N=2, exhaustive_samples=1, fixed=[0, 1, 2, 3]))
         out.append(dict(case='boot', routine='pattern', n_rdm=2, n_cond=3, n_model=1, N=2))
